@@ -290,6 +290,25 @@ def suite_decode(report, tier, seed, prop="C03"):
         mx = rng.choice([0, 0, 0, 2, 5, 16, 128, len(data), max(len(data) - 1, 1), 268435455])
         streams.append((base[0], mx, data, None, "mutated"))
         report.count("decode.hostile")
+    # length-field nudges: in a well-formed packet, every two bytes that could be a length prefix (their value fits in what
+    # follows) are moved to 1..3 more than their value, and to 1..2 more than what is left of the packet, with the fixed
+    # header untouched - the frame stays self-consistent, so the packet decoder itself has to notice
+    seen_kinds = {}
+    for s in valid_pool:
+        k = (s[0], s[4].split(" ")[0])
+        if s[3] and len(s[3]) == 1 and 4 <= len(s[2]) <= (120 if tier == "quick" else 400) and seen_kinds.get(k, 0) < (6 if tier == "quick" else 40):
+            seen_kinds[k] = seen_kinds.get(k, 0) + 1
+            data = s[2]
+            hdr = 2
+            for i in range(hdr, len(data) - 1):
+                val = (data[i] << 8) | data[i + 1]
+                rem = len(data) - i - 2
+                if val > rem:
+                    continue
+                for nv in {val + 1, val + 2, val + 3, rem + 1, rem + 2, max(val - 1, 0)} - {val}:
+                    if nv <= 0xFFFF:
+                        streams.append((s[0], 0, data[:i] + bytes([nv >> 8, nv & 0xFF]) + data[i + 2:], None, "nudged"))
+                        report.count("decode.length-nudge")
     # size-limit probes: valid packets under a maximum around their size
     for s in valid_pool[:: max(1, len(valid_pool) // 60)]:
         for mx in (len(s[2]) - 1, len(s[2]), len(s[2]) + 1):
